@@ -29,6 +29,8 @@ TRUSTED = [
     "asyncio transport contract: no data_received after transport.close(); bytes written after close reach nobody "
     "(the fake transport implements exactly this); one data_received may carry several pipelined requests",
     "harness/ref/pairverify_client.py (independent controller, frame codec, HTTP reader), harness/ref/tlv8.py, generators",
+    "rig configuration (generator dimension, invisible to the model by design): stock classes or application subclasses of "
+    "AccessoryDriver / Accessory overriding the public hooks in the usual style; IPv4 or IPv6 peer names",
     "removal through AccessoryDriver.unpair()/State.remove_paired_client() called by the application is outside the "
     "property (no acknowledgement exists) and not modelled",
     "a restart is the Sessions model's `restart` step: every connection and handler gone, pairing map kept (that the state "
@@ -82,8 +84,8 @@ class _GateAdvertiser:
 
 
 class World16(c02.World):
-    def __init__(self, rng, persist_file=None):
-        super().__init__(rng, persist_file)
+    def __init__(self, rng, persist_file=None, cfg=None):
+        super().__init__(rng, persist_file, cfg)
         self.stop_task = None
         acc = self.driver.accessory
         serv = acc.add_preload_service("Lightbulb")
@@ -102,13 +104,15 @@ class World16(c02.World):
 
     def begin_stop(self):
         """The application calls AccessoryDriver.async_stop(): it runs up to the pending mDNS goodbye."""
-        from unittest.mock import MagicMock
+        from unittest.mock import AsyncMock, MagicMock, patch
 
         d = self.driver
         d.advertiser = _GateAdvertiser(self.loop)
         d.aio_stop_event = asyncio.Event()
-        d.http_server.server = MagicMock()
-        d.http_server._connection_cleanup = MagicMock()  # noqa: SLF001  (the server was never started for real)
+        # the HAP server is started through its own public entry point (only the listening socket is a stub), so that
+        # whatever it keeps for its idle sweep exists under whatever name
+        with patch.object(self.loop, "create_server", AsyncMock(return_value=MagicMock())):
+            self.loop.run_until_complete(d.http_server.async_start(self.loop))
         self.stop_task = self.loop.create_task(d.async_stop())
         self.tick()
 
@@ -168,7 +172,7 @@ class World16(c02.World):
         if c in self.protos and not self.transports[c].closed:
             return False
         p = self.hap_protocol.HAPServerProtocol(self.loop, self.connections, self.driver)
-        t = LogTransport(("10.0.0.%d" % (c + 1), 40000 + c), c, self.log)
+        t = LogTransport(self.peer(c), c, self.log)
         p.connection_made(t)
         self.protos[c], self.transports[c], self.rconn[c] = p, t, c02.RefConn()
         return True
@@ -205,6 +209,13 @@ class World16(c02.World):
             p.data_received(wire)
         except Exception as ex:  # noqa: BLE001
             raised = type(ex).__name__
+            # asyncio's answer to an exception escaping data_received: this one transport is force-closed
+            # (_fatal_error -> connection_lost); nothing else happens to the other connections
+            t.closed = True
+            try:
+                p.connection_lost(ex)
+            except Exception:  # noqa: BLE001
+                pass
         res = []
         for buf, dropped in ((bytes(t.out), False), (bytes(t.dropped), True)):
             if r.session and buf:
@@ -269,7 +280,8 @@ class Runner16(c02.Runner):
             fd, self.persist_file = tempfile.mkstemp(prefix="verif-c16-", suffix=".state")
             os.close(fd)
             os.unlink(self.persist_file)  # a fresh accessory: the first save creates it
-        self.w = World16(self.krng, self.persist_file)
+        self.cfg = c02.script_cfg(script)
+        self.w = World16(self.krng, self.persist_file, self.cfg)
         self.sk = {j: rc.ed25519.Ed25519PrivateKey.from_private_bytes(self._rb(32)) for j in (0, 1, 2, 3, 9)}
         self.ref_paired = {}
         self.all_ex = []
@@ -467,7 +479,7 @@ class Runner16(c02.Runner):
             old.stop_task.cancel()
         old.close()
         self.busy.clear()
-        self.w = World16(self.krng, self.persist_file)
+        self.w = World16(self.krng, self.persist_file, self.cfg)
         # the model's own `restart` step: no connection, no handler, the pairing map is what the new process loaded
         self.clock += 1
         self.record({"op": "restart"}, len(self.w.log), {}, compare_events=False)
@@ -834,6 +846,16 @@ def boundary_scripts():
               RQ(2, rem(2)), *probes(4), RESTART, CN(7), S(7, 2), CN(8), S(8, 1, key=3), RQ(8, prot(1)), CN(9), S(9, 0), RQ(9, LIST)])
     s.append([P(0), P(1), CN(0), CN(1), S(0, 0), S(1, 1), SNAP(1), RESTART, CN(2), S(2, 1), RQ(2, rem(0)), CN(3), S(3, 0), RESTART,
               CN(4), S(4, 0), CN(5), S(5, 1), RQ(5, rem(1)), *probes(5), RESTART, CN(6), S(6, 1), CN(7), S(7, 0)])
+    # ---- the RIG CONFIGURATION is a dimension of its own: the core removal histories again with an application that
+    # subclasses AccessoryDriver / Accessory in the usual style, and with IPv6 peer names (4-tuples)
+    core = [s[0], s[1], s[2], s[3], s[7]]
+    core.append([P(0), P(1, admin=False), P(2, admin=False), CN(0), CN(1), CN(2), CN(3), S(0, 0), S(1, 1), S(2, 1, "force"), S(3, 2),
+                 SNAP(2), RQ(0, rem(1), prot(0)), FIN(2), *probes(1), *probes(2), RQ(3, prot(0)), RQ(0, add(1)), CN(4), S(4, 1), RQ(4, prot(0)),
+                 RQ(0, rem(0)), *probes(3), *probes(4), *probes(0)])
+    core.append([P(0), P(1, admin=False), CN(0), CN(1), S(0, 0), S(1, 1), RQ(0, rem(1)), RESTART, CN(2), S(2, 1), CN(3), S(3, 0), RQ(3, LIST)])
+    for drv, fam in c02.CONFIGS:
+        for sc in core:
+            s.append([c02.CFG(drv, fam), *sc])
     # removal of one of three, twice in a row (second is a no-op)
     s.append([P(0), P(1, admin=False), P(2, admin=False), CN(0), CN(1), CN(2), S(0, 0), S(1, 1), S(2, 2),
               RQ(0, rem(1), rem(1)), *probes(1), RQ(2, prot(0)), RQ(0, rem(2)), *probes(2), RQ(0, prot(0))])
@@ -1011,12 +1033,20 @@ def soup_script(rng):
     return ops
 
 
+def with_config(rng, script):
+    """Every random history runs under a configuration drawn here (half of them: the default one)."""
+    if rng.random() < 0.5:
+        return script
+    drv, fam = rng.choice(c02.CONFIGS)
+    return [c02.CFG(drv, fam), *script]
+
+
 def gen_scripts(ctx: Ctx):
     scripts = boundary_scripts()
     for _ in range(ctx.n(250, 6000)):
-        scripts.append(random_script(ctx.rng))
+        scripts.append(with_config(ctx.rng, random_script(ctx.rng)))
     for _ in range(ctx.n(90, 1500)):
-        scripts.append(soup_script(ctx.rng))
+        scripts.append(with_config(ctx.rng, soup_script(ctx.rng)))
     return scripts
 
 
@@ -1050,7 +1080,9 @@ def run(ctx: Ctx):
         "removal by self / another admin / last-admin rule / unknown id / non-admin through real POST /pairings (optionally with "
         "pipelined requests in the same segment), then GET/PUT/subscribe/prepare/list from old connections, fresh verify attempts, "
         "re-adding; plus 'soup' histories: arbitrary interleavings of sessions, requests, removals, re-additions (same or new key), "
-        "snapshots that start / complete / fail, peers going away and restarts. Non-trivial: the history contains an acknowledged removal or a denied one; distinct by the outcome sequence."
+        "snapshots that start / complete / fail, peers going away and restarts. Every history runs under a rig configuration "
+        "(half of the random ones non-default): application subclasses of AccessoryDriver / Accessory overriding the public hooks "
+        "in the usual style, IPv6 peer names (4-tuples). Non-trivial: the history contains an acknowledged removal or a denied one; distinct by the outcome sequence."
     )
     logging.disable(logging.CRITICAL)
     try:
@@ -1117,7 +1149,7 @@ def search(ctx: Ctx):
     logging.disable(logging.CRITICAL)
     try:
         for k in range(1500):
-            script = random_script(ctx.rng)
+            script = with_config(ctx.rng, random_script(ctx.rng))
             keyseed = 9_000_000 + ctx.seed * 1000003 + k
             r = _execute(ctx, script, keyseed)
             if r.fails:
